@@ -716,5 +716,10 @@ func writeEvidence(x *Exec, plan *Plan, prop, tier string, seed int, obls []*Obl
 	}
 	os.MkdirAll(filepath.Join(verifDir, "evidence"), 0o755)
 	data, _ := json.MarshalIndent(ev, "", " ")
-	os.WriteFile(filepath.Join(verifDir, "evidence", prop+".json"+os.Getenv("VERIF_EVIDENCE_SUFFIX")), append(data, '\n'), 0o644)
+	suffix := os.Getenv("VERIF_EVIDENCE_SUFFIX")
+	if r := os.Getenv("VERIF_REPO"); suffix == "" && r != "" && filepath.Clean(r) != "/repo" {
+		// a run on a scratch copy (mutant corpus, seeded change) never overwrites the evidence of /repo
+		suffix = ".scratch"
+	}
+	os.WriteFile(filepath.Join(verifDir, "evidence", prop+".json"+suffix), append(data, '\n'), 0o644)
 }
